@@ -25,6 +25,7 @@ type ChanObj struct {
 	Cap    Term
 	Closed Term
 	Sent   []Value // values sent on this path (ghost log)
+	Len    Term    // number of buffered elements when first observed (symbolic for input channels)
 	Name   string
 }
 
@@ -697,10 +698,28 @@ func (x *Exec) selectInstr(st *State, fr *Frame, i *ssa.Select, set func(Value))
 		x.unsupported(st, "blocking select")
 		return
 	}
-	// select with default: each ready case or the default may be taken
+	// select with default: each ready case or the default may be taken. A send on a buffered channel is
+	// ready iff the buffer has room (cap == 0: ready iff a receiver waits, unknown here); the default is
+	// taken only if no case is ready.
 	n := len(i.States)
 	choice := x.sym.Fresh("select.choice", SInt)
 	st.assume(And(Le(IntLit(-1), choice), Lt(choice, IntLit(int64(n)))))
+	for j, s := range i.States {
+		if s.Dir != types.SendOnly {
+			continue
+		}
+		cv, ok := x.force(st, x.eval(st, st.top(), s.Chan)).(VChan)
+		if !ok || cv.Obj < 0 {
+			continue
+		}
+		co, ok := st.heap[cv.Obj].(*ChanObj)
+		if !ok || co.Cap.S == "" {
+			continue
+		}
+		room := Lt(x.chanLen(st, cv), co.Cap)
+		st.assume(Implies(Eq(choice, IntLit(int64(j))), Or(Eq(co.Cap, IntLit(0)), room)))
+		st.assume(Implies(Eq(choice, IntLit(-1)), Not(And(Gt(co.Cap, IntLit(0)), room))))
+	}
 	for k := n - 1; k >= -1; k-- {
 		target := st
 		if k > -1 {
@@ -802,4 +821,20 @@ func (x *Exec) elemAssume(st *State, obj, cell int) {
 		}
 		st.assume(t)
 	}
+}
+
+// chanLen is len(ch): the elements buffered when the channel was first observed plus the sends of this path.
+func (x *Exec) chanLen(st *State, ch VChan) Term {
+	if ch.Obj < 0 {
+		return IntLit(0)
+	}
+	co, ok := st.heap[ch.Obj].(*ChanObj)
+	if !ok {
+		return IntLit(0)
+	}
+	base := co.Len
+	if base.S == "" {
+		base = IntLit(0)
+	}
+	return Add(base, IntLit(int64(len(co.Sent))))
 }
